@@ -1,6 +1,7 @@
 #!/bin/bash
 # usage: seedchecks.sh <patch.diff> [IDs...]  -> applies the patch to a scratch worktree (HEAD of /repo) and lists the checks that fire.
 # Checks run in parallel after the first one has populated the fact cache.
+VD="$(cd "$(dirname "$0")/.." && pwd)"
 WT=${CB_SCRATCH:-/tmp/cbwt}
 if [ ! -e "$WT/.git" ]; then git -C /repo worktree add --detach "$WT" HEAD >/dev/null 2>&1; fi
 git -C "$WT" checkout -q --detach "$(git -C /repo rev-parse HEAD)" 2>/dev/null; git -C "$WT" checkout -q -- .
@@ -9,10 +10,10 @@ shift
 IDS="${*:-C01 C02 C03 C04 C05 C06 C07 C08 C09 C10 C11 C12 C13 C14 C15 C16 C17 C18 C19 C20}"
 TMP=$(mktemp -d)
 first=$(echo $IDS | cut -d' ' -f1)
-CB_REPO="$WT" /verif/check "$first" > "$TMP/$first.out" 2>&1; echo $? > "$TMP/$first.rc"
+CB_REPO="$WT" $VD/check "$first" > "$TMP/$first.out" 2>&1; echo $? > "$TMP/$first.rc"
 rest=$(echo $IDS | cut -d' ' -f2- -s)
 if [ -n "$rest" ]; then
-  echo $rest | tr ' ' '\n' | xargs -P 8 -I{} sh -c "CB_REPO='$WT' /verif/check {} > '$TMP/{}.out' 2>&1; echo \$? > '$TMP/{}.rc'"
+  echo $rest | tr ' ' '\n' | xargs -P 8 -I{} sh -c "CB_REPO='$WT' $VD/check {} > '$TMP/{}.out' 2>&1; echo \$? > '$TMP/{}.rc'"
 fi
 fired=""
 for id in $IDS; do
